@@ -973,7 +973,30 @@ func (x *Exec) slice(fr *Frame, st *State, in *ssa.Slice) *Value {
 		}
 		x.safetyOblige(fr, st, "slice", text, And(Le(IntLit(0), lo), Le(lo, hi), Le(hi, IntLit(at.Len()))), in.Pos())
 		if !base.P.Elem || len(base.P.Path) != 0 {
-			failf("slicing an array embedded in a struct")
+			// An array that is a field of a struct (or of a slice element) lives in the struct's leaves, not in the
+			// slice-backing heap: the slice is modelled as a COPY of the array's current contents in a fresh backing
+			// array. Sound for slices that are only read (comparisons, hashing); a write through such a slice would be
+			// lost, so every function that does this is listed, and the copy is marked so that stores through it fail.
+			for _, ref := range *in.Referrers() {
+				if _, isCall := ref.(*ssa.Call); !isCall {
+					if _, dbg := ref.(*ssa.DebugRef); !dbg {
+						failf("slicing an array embedded in a struct (the slice is used by something other than a call)")
+					}
+				}
+			}
+			x.unmod["slice of an array embedded in a struct, passed to a call: modelled as a read-only copy of its contents (the callee must not write through it)"] = true
+			arrV := x.load(st, base.P, at)
+			ref := x.freshRef(st, "arrcopy")
+			p2 := &Pointer{Base: ref, ObjT: at.Elem(), Elem: true, Idx: IntLit(0)}
+			elemLeaves := leavesOf(at.Elem())
+			terms := leafTerms(arrV)
+			for li, l := range elemLeaves {
+				key, stored, _ := x.leafKey(p2, l)
+				arr := x.heapArr(st, key, stored)
+				st.heap[key] = Store(arr, ref, terms[li])
+				x.noteWrite(key, ref)
+			}
+			return &Value{K: KSlice, T: in.Type(), Ref: ref, Off: lo, Len: Sub(hi, lo)}
 		}
 		return &Value{K: KSlice, T: in.Type(), Ref: base.P.Base, Off: Add(base.P.Idx, lo), Len: Sub(hi, lo)}
 	}
